@@ -126,6 +126,11 @@ def decode(code):
             ops.append(["run", 1 + a])
         elif o == 10 and names:
             ops.append(["select", ["chooser", "string"][s % 2], (names + ["None", "no such mode"])[(a + s) % (len(names) + 2)]])
+        elif o == 11 and names and a < 3:
+            # a period with nothing selected right after one that was not disabled
+            ops.append(["select", "string", "no such mode"])
+            ops.append(["select", "chooser", "None"])
+            ops.append(["start"])
         else:
             ops.append(["periodic", ADV[a]])
     case["ops"] = ops
